@@ -26,6 +26,9 @@ ALL_PROPS = ['C%02d' % i for i in range(1, 18)]
 ORACLES = {'C01': 'solvency', 'C02': 'solvency', 'C04': 'solvency', 'C06': 'exit_liveness', 'C08': 'approver_tracks_size',
            'C09': 'solvency', 'C10': 'mechanism', 'C11': 'bid_consistency'}
 # properties with strict-mode (liveness) clauses
+CALLER_PROPS = {'contract::cancel_ask': ['C04', 'C06'], 'contract::reverse_ask': ['C04', 'C06'], 'contract::reverse_bid': ['C04', 'C06'],
+                'contract::execute_match': ['C02', 'C03'], 'contract::create_ask': ['C07'], 'contract::create_bid': ['C07'],
+                'contract::approve_ask': ['C08']}
 STRICT_PROPS = {'C06', 'C07', 'C13'}
 
 
@@ -146,10 +149,15 @@ def classify(diags, lm, gen_path):
                 lab = lm.label_at(s['line_start']) or lab
         if lab is not None:
             name = lab['label']
+            props = list(lab['props'])
             if entry['call_site']:
-                name = '%s@%s' % (name, entry['call_site'].split('#')[0])
+                caller = entry['call_site'].split('#')[0]
+                name = '%s@%s' % (name, caller)
+                # a call-site obligation also serves the properties of the operation it occurs in: a payout the chain
+                # would reject (wrong mechanism, zero amount) makes that operation fail as a whole
+                props += CALLER_PROPS.get(caller, [])
             entry['label'] = name
-            entry['props'] = lab['props']
+            entry['props'] = props
             entry['kind'] = 'labelled'
             failures.append(entry)
         else:
